@@ -64,7 +64,7 @@ Definition l_result (m : bool) (s : lst) (it : nat) : result :=
 
 Definition l_run (step : nat -> lst -> levent -> lst * bool) (m : bool) (max_iter : nat) (u0 : Z)
            (evs : list levent) : option result :=
-  if Nat.eqb max_iter 0 then None else   (* UnboundLocalError on `iteration`, as in anneal *)
+  (* `iteration = 0` is bound before the `for`: max_iter = 0 returns the start point, 0 iterations *)
   match loop step max_iter 1 (l_init m u0) evs with
   | None => None
   | Some (s, it) => Some (l_result m s it)
